@@ -5,7 +5,7 @@ from hypothesis import strategies as st
 
 from ECAgent.Core import Model, System
 from vf.engine import Violation, InvalidCase
-from vf.fixtures import check
+from vf.fixtures import check, wone_of
 
 PROPERTY = "C05"
 BUDGET = {"quick": 2000, "thorough": 6000}
@@ -149,7 +149,7 @@ def run_case(case):
 def _action():
     rem = st.fixed_dictionaries({"a": st.just("remove"), "target": st.integers(0, 7)})
     add = st.fixed_dictionaries({"a": st.just("add"), "prio": st.integers(0, 3), "reuse": st.booleans()})
-    return st.one_of(rem, rem, add)
+    return wone_of(rem, rem, add)
 
 
 def strategy(tier):
